@@ -10,7 +10,7 @@
    window_is_lastn and check_schedule_sound.  What stays outside Coq: that rex's own Python to_graph/apply_window/supergraph code establishes same_graph for EVERY record
    (it is validated, not proved), jit/XLA, floats off the lattice. *)
 From Coq Require Import List Arith ZArith Bool.
-From Rex Require Import KahnL AsyncModel2 AsyncStable ConflInv RexDet AsyncLaws AsyncLaws2 AsyncLaws3 AsyncLaws4 CompiledModel WindowSpec WindowPush RunnerSym CheckSym Dataflow Replay AsyncDataflow ReplayAsync ExportWindows ExportReplay BufferSufficient Capstone ToTimings ToTimingsLaws ToTimingsExtra Capstone2 Capstone3.
+From Rex Require Import KahnL AsyncModel2 AsyncStable ConflInv RexDet AsyncLaws AsyncLaws2 AsyncLaws3 AsyncLaws4 CompiledModel WindowSpec WindowPush RunnerSym CheckSym Dataflow Replay AsyncDataflow ReplayAsync ExportWindows ExportReplay BufferSufficient Capstone ToTimings ToTimingsLaws ToTimingsExtra Capstone2 Capstone3 SchedOk.
 Open Scope Z_scope.
 
 (* uniqueness of solutions of the dataflow equations: two traces over the same windowed graph, step function and initial values agree wherever both are defined *)
@@ -163,4 +163,14 @@ Print Assumptions C01_compiled_replay_from_partitioner_contract.
 Theorem C01_compiled_replay_from_partitioner_contract_hyps : check_mono ex_I0 ex_tmpl ex_M = true /\ tmpl_ok ex_I0 ex_tmpl = true /\ sup_covered ex_I0 ex_M = true.
 Proof. exact @ex3_hyps. Qed.
 Print Assumptions C01_compiled_replay_from_partitioner_contract_hyps.
+
+(* FINAL CAPSTONE (C01 + C07 + C08 on the models): for every asynchronous system G whose connections have window >= 1, every recorded prefix s (any thread schedule), every partitioner template and monomorphism satisfying the decidable contract check_mono /\ tmpl_ok /\ sup_covered, ring sizes >= buffer_need and n <= nparts: the compiled rollout of the schedule rex.utils.to_timings builds (model) and the recorded asynchronous execution agree (state before, output) on every vertex both executed. check_schedule, extra_ok, sched_ok and check_replay are all DERIVED *)
+Theorem C01_compiled_replay_closed : forall (G : cfg) (s : state) (tmpl : list (nat * nat)) (M : list mentry) (ngen nparts sup : nat) (sizes : list Z) (n : nat), let I0 := export G s nil ngen nparts sup in let I := export G s (to_timings I0 tmpl M) ngen nparts sup in reach G s -> check_mono I0 tmpl M = true -> tmpl_ok I0 tmpl = true -> sup_covered I0 M = true -> (forall cn : conn_cfg, In cn (conns G) -> (1 <= c_window cn)%nat) -> (forall c : nat, (c < length (i_conns I))%nat -> buffer_need I c <= size_of sizes (k_out (conn I c))) -> (n <= nparts)%nat -> forall (m : nat) (k : Z) (x1 x2 : Z * Z), T_a G s m k = Some x1 -> Tc I sizes 0 n m k = Some x2 -> x1 = x2.
+Proof. exact @compiled_replay_closed. Qed.
+Print Assumptions C01_compiled_replay_closed.
+
+(* non-vacuity: the theorem instantiated on the recorded two-node execution (all hypotheses jointly satisfiable) *)
+Theorem C01_compiled_replay_closed_example : forall x1 x2 : Z * Z, T_a exG exS 1%nat 2 = Some x1 -> Tc (export exG exS (to_timings ex_I0 ex_tmpl ex_M) 2 3 1) (2 :: 1 :: nil) 0 3 1%nat 2 = Some x2 -> x1 = x2.
+Proof. exact @ex4_capstone. Qed.
+Print Assumptions C01_compiled_replay_closed_example.
 
